@@ -824,7 +824,7 @@ def clone_repo(repo, edits):
 def _edit(repo, rel, transform):
     tree = ast.parse(repo.modules[rel].text)
     if not transform(tree):
-        raise AnalysisError("mutation operator found nothing to change in %s" % rel)
+        return None   # the spelling this operator targets is not in today's tree
     ast.fix_missing_locations(tree)
     return {rel: ast.unparse(tree)}
 
@@ -1097,8 +1097,12 @@ def thorough(ctx):
     killed = total = 0
     survivors = []
     for name, rel, tr in mutants():
+        ed = _edit(ctx.repo, rel, tr)
+        if ed is None:
+            ctx.note("mutation operator not applicable to this tree: %s" % name)
+            continue
         total += 1
-        r2 = clone_repo(ctx.repo, _edit(ctx.repo, rel, tr))
+        r2 = clone_repo(ctx.repo, ed)
         s = Sink()
         try:
             core(r2, s)
@@ -1115,8 +1119,12 @@ def thorough(ctx):
     silent = btotal = 0
     noisy = []
     for name, rel, tr in benign():
+        ed = _edit(ctx.repo, rel, tr)
+        if ed is None:
+            ctx.note("benign edit not applicable to this tree: %s" % name)
+            continue
         btotal += 1
-        r2 = clone_repo(ctx.repo, _edit(ctx.repo, rel, tr))
+        r2 = clone_repo(ctx.repo, ed)
         s = Sink()
         core(r2, s)
         new = [(r, q, c) for r, q, c, m in s.failed if (r, q, c) not in base_keys]
@@ -1133,3 +1141,6 @@ def thorough(ctx):
         raise AnalysisError("rule lost its teeth: surviving mutants: %s" % "; ".join(survivors))
     if noisy:
         raise AnalysisError("rule fires on behaviour-preserving edits: %s" % "; ".join(noisy))
+    if total < 18 or btotal < 4:
+        raise AnalysisError("only %d mutation operators and %d benign edits apply to this tree (need >= 18 / 4): "
+                            "the mutation set no longer matches the code" % (total, btotal))
